@@ -67,13 +67,23 @@ Definition odc_fields (ino : Z) (e : entry) : list wr :=
 
 Definition odc_block (ino : Z) (e : entry) : list Z := apply_writes (odc_fields ino e) (zeros 76).
 
+(* the overflow results write_header turns into ARCHIVE_WARN (the saturated value is stored) *)
+Definition odc_warn (e : entry) : Z :=
+  let ret := pick (negb (fst (odc_format_octal (e_uid e) ODC_c_uid_size) =? 0)) ST_WARN ST_OK in
+  let ret := pick (negb (fst (odc_format_octal (e_gid e) ODC_c_gid_size) =? 0)) ST_WARN ret in
+  let ret := pick (negb (fst (odc_format_octal (e_nlink e) ODC_c_nlink_size) =? 0)) ST_WARN ret in
+  let ret := pick (is_dev e && negb (fst (odc_format_octal (s64 (e_rdev e)) ODC_c_rdev_size) =? 0)) ST_WARN ret in
+  pick (negb (fst (odc_format_octal (e_mtime e) ODC_c_mtime_size) =? 0)) ST_WARN ret.
+
 (* write_header: (state, status, bytes written by the call, entry_bytes_remaining) *)
 Definition odc_write_header (st : cpio_state) (e : entry) : cpio_state * Z * list Z * Z :=
+  if 262143 <? lenZ (ob (e_path e)) + 1 then (st, ST_FAILED, [], 0)
+  else
   let '(st, ino) := synthesize_ino st e in
   if ino <? 0 then (st, ST_FATAL, [], 0)
   else if 262143 <? ino then (st, ST_FATAL, [], 0)
   else if negb (fst (odc_filesize e) =? 0) then (st, ST_FAILED, [], 0)
-  else (st, ST_OK, odc_block ino e ++ ob (e_path e) ++ [0] ++ sym_of e, body_size e).
+  else (st, odc_warn e, odc_block ino e ++ ob (e_path e) ++ [0] ++ sym_of e, body_size e).
 
 Definition odc_entry (full : bool) (st : cpio_state) (e : entry) : cpio_state * ewrite :=
   if negb (cpio_precheck true e) then (st, mkEw ST_FAILED [] 0 [] 0)
@@ -112,8 +122,14 @@ Definition newc_fields (e : entry) : list wr :=
 
 Definition newc_block (e : entry) : list Z := apply_writes (newc_fields e) (zeros NEWC_c_header_size).
 
-Definition newc_write_header (e : entry) : Z * list Z * Z :=
+Definition newc_warn (e : entry) : Z :=
   let ret := pick (4294967295 <? e_ino e) ST_WARN ST_OK in
+  let ret := pick (negb (fst (newc_format_hex (e_uid e) NEWC_c_uid_size) =? 0)) ST_WARN ret in
+  let ret := pick (negb (fst (newc_format_hex (e_gid e) NEWC_c_gid_size) =? 0)) ST_WARN ret in
+  pick (negb (fst (newc_format_hex (e_mtime e) NEWC_c_mtime_size) =? 0)) ST_WARN ret.
+
+Definition newc_write_header (e : entry) : Z * list Z * Z :=
+  let ret := newc_warn e in
   if negb (fst (newc_filesize e) =? 0) then (ST_FAILED, [], 0)
   else
     let p := sym_of e in
@@ -144,7 +160,16 @@ Definition bin_block (ino : Z) (e : entry) : list Z :=
   ++ bin16 (e_nlink e) ++ (if is_dev e then bin16 (e_rdev e) else [0; 0])
   ++ bin32 (e_mtime e) ++ bin16 (pathlength_of e) ++ bin32 fsz.
 
+Definition bin_warn (e : entry) : Z :=
+  let ret := pick (65535 <? e_uid e) ST_WARN ST_OK in
+  let ret := pick (65535 <? e_gid e) ST_WARN ret in
+  let ret := pick (65535 <? e_nlink e) ST_WARN ret in
+  let ret := pick (is_dev e && (65535 <? u64 (e_rdev e))) ST_WARN ret in
+  pick ((e_mtime e <? 0) || (4294967295 <? e_mtime e)) ST_WARN ret.
+
 Definition bin_write_header (pwb : bool) (st : cpio_state) (e : entry) : cpio_state * Z * list Z * Z :=
+  if 65535 <? lenZ (ob (e_path e)) + 1 then (st, ST_FAILED, [], 0)
+  else
   let '(st, ino) := synthesize_ino st e in
   if ino <? 0 then (st, ST_FATAL, [], 0)
   else if 32767 <? ino then (st, ST_FATAL, [], 0)
@@ -161,7 +186,7 @@ Definition bin_write_header (pwb : bool) (st : cpio_state) (e : entry) : cpio_st
   else
   let out := bin_block ino e ++ ob (e_path e) ++ [0] ++ (if Z.odd (pathlength_of e) then [0] else []) in
   let out := if (0 <? length p)%nat then out ++ p ++ (if Z.odd (lenZ p) then [0] else []) else out in
-  (st, ST_OK, out, if Z.odd size then size + 1 else size).
+  (st, bin_warn e, out, if Z.odd size then size + 1 else size).
 
 Definition bin_entry (full pwb : bool) (st : cpio_state) (e : entry) : cpio_state * ewrite :=
   if negb (cpio_precheck true e) then (st, mkEw ST_FAILED [] 0 [] 0)
